@@ -62,7 +62,12 @@ fn check_chain(stats: &mut Stats, rng: &mut Rng, sets: &Vec<Vec<P>>, key: &str, 
     let os: Vec<Operand> = sets.iter().map(Operand::new).collect();
     let refs: Vec<&Operand> = os.iter().collect();
     let pr = probes(rng, &refs, n_uniform, n_near);
-    let key = &format!("{}{}", key, contact_suffix_all(&sets.iter().collect::<Vec<_>>()));
+    // input class of the failing key: a contact class if the operands touch / nearly touch / have crossings close together, otherwise
+    // (general position) the input itself, so that a recorded failure is one specific input and any other input still alarms
+    let refs_sets: Vec<&Vec<P>> = sets.iter().collect();
+    let contact = contact_suffix_all(&refs_sets);
+    let contact = if contact.is_empty() && sets.len() >= 3 { close_crossings_suffix(&refs_sets) } else { contact };
+    let key = &format!("{}{}", key, contact);
     let detail = || ops_detail(&sets.iter().collect::<Vec<_>>());
     stats.count("op.add_chain");
     let s2 = sets.clone();
